@@ -480,6 +480,9 @@ ASSUMED_CONTRACTS = [
 ]
 
 
+ARRANGING = 0      # > 0 while a contract builds its pre-state (constructors of nodes that exist have returned normally)
+
+
 class SymNum:
     """result of Decimal(s) / int(s) on a symbolic numeral string"""
     __vf_symbolic__ = True
@@ -495,6 +498,11 @@ class SymNum:
     def normalize(self, *a):
         if self.kind != "dec":
             raise EngineUnsupported("normalize on int")
+        # contract of decimal (A4): rounding to the context precision signals decimal.Overflow (an ArithmeticError) when the adjusted
+        # exponent exceeds the context's Emax = 999999 - in CPython only for a numeral of more than 999999 digits; the length condition
+        # is left out of the formula (over-approximation: any numeral may overflow), the solvers do not decide lengths of that size
+        if not ARRANGING and not self.normalized and ctx().decide(z3.Bool(fresh("decimal_overflow"))):
+            raise decimal.Overflow([decimal.Overflow])
         return SymNum("dec", self.src, True, self.val)
 
     def __getattr__(self, k):
